@@ -27,10 +27,14 @@ class _Ins:
         self.n += 1
         if bit == 0:
             return []
-        i = len(self.inserted)
-        m = MetadataNode() if i % 3 == 2 else HTMLDependency("ins" + str(i), "1.0", head="<!--ins-->")
-        self.inserted.append(m)
-        return [m]
+        out = []
+        reps = 1 + ((self.mask >> 12) & 3)          # bits 12-13: how many nodes in a row at every chosen point
+        for _ in range(reps):
+            i = len(self.inserted)
+            m = MetadataNode() if i % 3 == 2 else HTMLDependency("ins" + str(i), "1.0", head="<!--ins-->")
+            self.inserted.append(m)
+            out.append(m)
+        return out
 
 
 def with_meta(x, ins: _Ins):
@@ -62,10 +66,10 @@ def _pre(B, root, k0, k1, mask, pr):
     return 0 <= root <= 3 and 0 <= k0 < N_CHILD and 0 <= k1 < (N_CHILD if B["FULL"] else len(_K1_QUICK)) and 0 <= mask < B["M"] and 0 <= pr <= 2
 
 
-_MASKS = [0b111111111111, 0b1, 0b101010, 0b10, 0b100, 0b1000, 0b11, 0b10000, 0b100000, 0b110000, 0b1000000, 0b011011011011]
+_MASKS = [0b111111111111, 0b1000000000001 | 0b10 | 0b1000, 0b101010, 0b10000000000000 | 0b111111111111, 0b1, 0b10, 0b100, 0b1000, 0b11, 0b10000, 0b100000, 0b110000, 0b1000000, 0b011011011011]
 
 
-@harness("C07", pre=_pre, bounds={"quick": {"M": 4, "FULL": False}, "thorough": {"M": 12, "FULL": True}},
+@harness("C07", pre=_pre, bounds={"quick": {"M": 4, "FULL": False}, "thorough": {"M": 14, "FULL": True}},
          shard=lambda B: [{"root": r, "k0": k} for r in range(4) for k in range(N_CHILD)],
          sel=["root: block / inline / void (br) / list", "k0, k1: any catalogue child (valid nesting or not)",
               "mask: which insertion points (before/after every child at every level, incl. only-child and several in a row) get a metadata node",
